@@ -19,7 +19,7 @@ class LockInfo:
     def __init__(self, F):
         self.F = F
         self.wrapper_tys = self._wrapper_types()
-        self.token_re = re.compile("|".join([GUARD_RE.pattern] + [re.escape(w) + "<" for w in self.wrapper_tys]))
+        self.token_re = re.compile("|".join([GUARD_RE.pattern, r"signal_hook_registry::half_lock::ReadGuard<"] + [re.escape(w) + "<" for w in self.wrapper_tys]))
         self.wrappers = {}        # inst id -> lock id  (functions returning a token)
         self.acqs = []            # all acquisitions
         self.regions = {}         # (inst id, lock) -> set of blocks where the lock is held
@@ -75,12 +75,19 @@ class LockInfo:
                 if t.get("f") is None:
                     continue
                 d = F.inst[t["f"]].defp
-                if d == MUTEX_LOCK and (m.local):
+                if d == MUTEX_LOCK and m.local and m.crate != "vroots":
                     lid = self.lock_id_of_mutex_expr(flow(m).term_arg(bb, 0))
                     a = Acq(m, bb, lid, "direct")
                     self._tolerance(a)
                     self.acqs.append(a)
                     direct.setdefault(m.id, []).append((bb, lid))
+        # 1b. read guards of the half lock are held "reader locks": writers wait for them, so holding one while acquiring a writer
+        #     mutex is a lock-order edge like any other
+        self.read_fns = {}
+        for m in F.inst:
+            mm = re.match(r"^signal_hook_registry::half_lock::HalfLock::<(.*)>::read$", m.name)
+            if mm and m.body is not None:
+                self.read_fns[m.id] = "signal_hook_registry::half_lock::HalfLock<%s>.readers" % mm.group(1)
         # 2. wrappers: fixpoint — a function whose return type is a token type and that holds a token at return
         changed = True
         tokens = {}   # inst id -> {local: lock id}
@@ -100,6 +107,8 @@ class LockInfo:
             for bb, t in m.calls():
                 if t.get("f") in self.wrappers:
                     self.acqs.append(Acq(m, bb, self.wrappers[t["f"]], "wrapper"))
+                elif t.get("f") in self.read_fns:
+                    self.acqs.append(Acq(m, bb, self.read_fns[t["f"]], "reader"))
                 elif t.get("f") is not None and F.inst[t["f"]].defp == ONCE_CALL:
                     lid = "Once:" + self.lock_id_of_mutex_expr(flow(m).term_arg(bb, 0))
                     self.acqs.append(Acq(m, bb, lid, "once"))
@@ -125,6 +134,10 @@ class LockInfo:
                 d = t.get("dest")
                 if d and not d["p"]:
                     tk[d["l"]] = self.wrappers[t["f"]]
+            if t.get("f") in getattr(self, "read_fns", {}):
+                d = t.get("dest")
+                if d and not d["p"]:
+                    tk[d["l"]] = self.read_fns[t["f"]]
         changed = True
         while changed:
             changed = False
